@@ -32,7 +32,7 @@ def main(argv):
     verbose = "-v" in argv
     for q in [a for a in argv if not a.startswith("-")]:
         t0 = time.time()
-        if os.environ.get("PYVC_VACUITY") and "::" in q and not q.startswith(("logblocks::", "lemma::", "dominance::")):
+        if os.environ.get("PYVC_VACUITY") and "::" in q and not q.startswith(("logblocks::", "lemma::", "dominance::", "handlers::")):
             # developer vacuity probe: add the postcondition `1 == 2`; it must NOT be discharged on any path
             _m, _c, _f = idx.function(q)
             _k = reg.lookup(_c.name if _c else None, _f.name, _m.rel)
@@ -46,6 +46,10 @@ def main(argv):
             from engine.dominance import build as _dom_build
 
             r = _dom_build(q, reg)
+        elif q.startswith("handlers::"):
+            from engine.handlerframe import build as _hf_build
+
+            r = _hf_build(q, reg)
         elif q.startswith("lemma::"):
             from .verify import FunctionResult
 
